@@ -30,8 +30,17 @@ func (r *Runner) bashTest(ctx context.Context, expr syntax.TestExpr, classic boo
 	case *syntax.BinaryTest:
 		switch x.Op {
 		case syntax.TsMatchShort, syntax.TsMatch, syntax.TsNoMatch:
-			str := r.literal(x.X.(*syntax.Word))
-			yw := x.Y.(*syntax.Word)
+			var str string
+			if xw, ok := x.X.(*syntax.Word); ok {
+				str = r.literal(xw)
+			} else {
+				// e.g. `[ -a b = x ]`, where the left operand parsed as a unary test
+				str = r.bashTest(ctx, x.X, classic)
+			}
+			yw, ok := x.Y.(*syntax.Word)
+			if !ok {
+				return ""
+			}
 			if classic { // test, [
 				lit := r.literal(yw)
 				if (str == lit) == (x.Op != syntax.TsNoMatch) {
